@@ -32,34 +32,58 @@ def all_slots(cls):
     return out
 
 
-def run_update(inst):
-    _, clsname = inst[:2]
+NUMERIC_SLOTS = ('logprobema', 'logprobe', 'logprobne', 'dist_obs', 'd_s', 'd_o', 'lpe', 'lpt', 'delayed')
+
+
+def _update_classes():
     from leuvenmapmatching.matcher.base import BaseMatching
     from leuvenmapmatching.matcher.distance import DistanceMatching
     from leuvenmapmatching.matcher.simple import SimpleMatching
+    return dict(BaseMatching=BaseMatching, DistanceMatching=DistanceMatching, SimpleMatching=SimpleMatching)
+
+
+def _mk_update_entry(cls, slots, tag, lp, stop, num):
+    """entry whose fields are recognisable tokens (identity is checked), except the numeric ones when values are given in num."""
     from leuvenmapmatching.util.segment import Segment
-    cls = dict(BaseMatching=BaseMatching, DistanceMatching=DistanceMatching, SimpleMatching=SimpleMatching)[clsname]
+    m = cls(None, Segment("A", (0, 0), "B", (0, 1)), Segment("O", (0, 0)))
+    for s in slots:
+        if s not in ('logprob', 'stop', 'length', 'prev', 'prev_other', 'matcher'):
+            setattr(m, s, num[s] if num is not None and s in num else Sentinel(f"{tag}.{s}"))
+    m.logprob, m.stop, m.length, m.prev, m.prev_other = lp, stop, 3, {Sentinel(f"{tag}.prev")}, set()
+    return m
+
+
+def _update_judge(slots, a, b, before, r, numeric, eq):
+    """(not copied after a winning update, changed by a losing update); eq compares two numeric field values."""
+    def same(s, x, y):
+        if x is y or (s in ('stop', 'length') and x == y):
+            return True
+        return bool(numeric and s in NUMERIC_SLOTS and eq(x, y))
+    if r:
+        return [s for s in slots if s not in ('prev_other', 'matcher') and not same(s, getattr(a, s), getattr(b, s))], []
+    return [], [s for s in slots if s != 'prev_other' and not same(s, getattr(a, s), before[s])]
+
+
+def run_update(inst):
+    """K: one real update() between two entries.  Variant 'tokens': every field is a recognisable token and a winning update must
+    carry over exactly the winner's objects; variant 'numeric': the numeric fields are arbitrary symbolic numbers and must carry the
+    winner's values afterwards (so that an update that combines the two entries arithmetically is judged by value, not rejected)."""
+    _, clsname = inst[:2]
+    numeric = len(inst) > 2 and inst[2] == 'numeric'
+    cls = _update_classes()[clsname]
     slots = all_slots(cls)
-    special = ('logprob', 'stop', 'length', 'prev', 'prev_other', 'matcher')
 
     def mk(eng, tag):
-        m = cls(None, Segment("A", (0, 0), "B", (0, 1)), Segment("O", (0, 0)))
-        for s in slots:
-            if s not in special:
-                setattr(m, s, Sentinel(f"{tag}.{s}"))
-        m.logprob = eng.fresh(f"lp_{tag}")
-        m.stop = bool(eng.fresh_bool(f"stop_{tag}"))
-        m.length = 3
-        m.prev = {Sentinel(f"{tag}.prev")}
-        m.prev_other = set()
-        return m
+        num = {s: eng.fresh(f"{s}_{tag}") for s in slots if s in NUMERIC_SLOTS} if numeric else None
+        return _mk_update_entry(cls, slots, tag, eng.fresh(f"lp_{tag}"), bool(eng.fresh_bool(f"stop_{tag}")), num)
 
     def scenario():
         eng = E.get_engine()
         a, b = mk(eng, 'cur'), mk(eng, 'new')
         before = {s: getattr(a, s) for s in slots}
+        bvals = {s: getattr(b, s) for s in slots}
         r = a.update(b)
-        return dict(a=a, b=b, before=before, r=r)
+        return dict(a=a, b=b, before=before, bvals=bvals, r=r)
 
     def claims(eng, v):
         a, b, before, r = v['a'], v['b'], v['before'], v['r']
@@ -67,49 +91,76 @@ def run_update(inst):
         sa, sb = before['stop'], b.stop
         should = z3.Or(z3.BoolVal(sa and not sb), z3.And(z3.BoolVal(sa == sb), lpa < lpb))
         cl = [('replaced_iff_better', z3.BoolVal(bool(r)) == should)]
+        notcopied, changed = _update_judge(slots, a, b, before, r, False, None)
+        if numeric:
+            for s in [x for x in (notcopied or changed) if x in NUMERIC_SLOTS]:
+                want = getattr(b, s) if r else before[s]
+                cl.append((f"{'winning_update_carries_the_value_of' if r else 'losing_update_keeps'}_{s}", E.lift(getattr(a, s)) == E.lift(want)))
+            notcopied = [x for x in notcopied if x not in NUMERIC_SLOTS]
+            changed = [x for x in changed if x not in NUMERIC_SLOTS]
         if r:
-            notcopied = [s for s in slots if s not in ('prev_other', 'matcher') and getattr(a, s) is not getattr(b, s)
-                         and not (s in ('stop', 'length') and getattr(a, s) == getattr(b, s))]
             cl.append((f'winning_update_copies_every_field (not copied: {notcopied})', z3.BoolVal(not notcopied)))
         else:
-            changed = [s for s in slots if s != 'prev_other' and getattr(a, s) is not before[s]
-                       and not (s in ('stop', 'length') and getattr(a, s) == before[s])]
             cl.append((f'losing_update_changes_nothing (changed: {changed})', z3.BoolVal(not changed)))
         return cl
 
     def confirm(eng, model, v, cname):
-        # the structural claims are concrete on this path: the symbolic run *is* the real code run
-        return dict(desc=f"{clsname}.update: claim {cname} fails; slots={slots}", kind='update', cls=clsname,
-                    lp_cur=E.model_value(model, E.lift(v['before']['logprob'])), lp_new=E.model_value(model, E.lift(v['b'].logprob)),
-                    stop_cur=v['before']['stop'], stop_new=v['b'].stop)
+        if isinstance(v, BaseException):
+            if not numeric:
+                return None           # tokens do not support arithmetic: the numeric variant judges such a tree
+        def mv(x):
+            return E.model_value(model, E.lift(x)) if E.is_sym(x) else x
+        if isinstance(v, BaseException):
+            # rebuild the inputs from the model by name
+            def nm(n, b=False):
+                return E.model_value(model, z3.Bool(n) if b else z3.Real(n))
+            d = dict(kind='update', cls=clsname, numeric=True, lp_cur=nm('lp_cur'), lp_new=nm('lp_new'),
+                     stop_cur=bool(nm('stop_cur', True)), stop_new=bool(nm('stop_new', True)),
+                     num_cur={s: nm(f"{s}_cur") for s in slots if s in NUMERIC_SLOTS},
+                     num_new={s: nm(f"{s}_new") for s in slots if s in NUMERIC_SLOTS})
+        else:
+            d = dict(kind='update', cls=clsname, numeric=numeric, lp_cur=mv(v['before']['logprob']), lp_new=mv(v['bvals']['logprob']),
+                     stop_cur=v['before']['stop'], stop_new=v['bvals']['stop'])
+            if numeric:
+                d['num_cur'] = {s: mv(v['before'][s]) for s in slots if s in NUMERIC_SLOTS}
+                d['num_new'] = {s: mv(v['bvals'][s]) for s in slots if s in NUMERIC_SLOTS}
+        bad = judge_update(d)
+        if bad:
+            return dict(d, desc=f"{clsname}.update: {bad} (claim {cname})")
+        return None
 
     def witness(eng, v):
         return ['replaced' if v['r'] else 'kept']
-    return runner.explore(f"update {clsname}", runner.lra_engine(5000), scenario, claims, confirm=confirm, witness=witness)
+    return runner.explore(f"update {clsname}" + (" numeric fields" if numeric else ""), runner.lra_engine(5000), scenario, claims, confirm=confirm, witness=witness)
+
+
+def judge_update(d):
+    """the same update on plain floats with the unmodified code; returns None or a description"""
+    cls = _update_classes()[d['cls']]
+    slots = all_slots(cls)
+    numeric = bool(d.get('numeric'))
+    a = _mk_update_entry(cls, slots, 'cur', d['lp_cur'], d['stop_cur'], d.get('num_cur') if numeric else None)
+    b = _mk_update_entry(cls, slots, 'new', d['lp_new'], d['stop_new'], d.get('num_new') if numeric else None)
+    before = {s: getattr(a, s) for s in slots}
+    try:
+        r = a.update(b)
+    except Exception as e:
+        return f"update raised {e!r}"
+    should = (d['stop_cur'] and not d['stop_new']) or (d['stop_cur'] == d['stop_new'] and d['lp_cur'] < d['lp_new'])
+    notcopied, changed = _update_judge(slots, a, b, before, r, numeric, lambda x, y: x == y)
+    if bool(r) != bool(should):
+        return f"update returned {r}, expected {should}"
+    if notcopied:
+        return f"winning update did not carry over {notcopied}: " + ", ".join(f"{s}={getattr(a, s)!r} (winner has {getattr(b, s)!r})" for s in notcopied)
+    if changed:
+        return f"losing update changed {changed}"
+    return None
 
 
 def replay_update(d):
-    from leuvenmapmatching.matcher.base import BaseMatching
-    from leuvenmapmatching.matcher.distance import DistanceMatching
-    from leuvenmapmatching.matcher.simple import SimpleMatching
-    from leuvenmapmatching.util.segment import Segment
-    cls = dict(BaseMatching=BaseMatching, DistanceMatching=DistanceMatching, SimpleMatching=SimpleMatching)[d['cls']]
-    slots = all_slots(cls)
-
-    def mk(tag, lp, stop):
-        m = cls(None, Segment("A", (0, 0), "B", (0, 1)), Segment("O", (0, 0)))
-        for s in slots:
-            if s not in ('logprob', 'stop', 'length', 'prev', 'prev_other', 'matcher'):
-                setattr(m, s, Sentinel(f"{tag}.{s}"))
-        m.logprob, m.stop, m.length, m.prev, m.prev_other = lp, stop, 3, {Sentinel(tag)}, set()
-        return m
-    a, b = mk('cur', d['lp_cur'], d['stop_cur']), mk('new', d['lp_new'], d['stop_new'])
-    r = a.update(b)
-    should = (d['stop_cur'] and not d['stop_new']) or (d['stop_cur'] == d['stop_new'] and d['lp_cur'] < d['lp_new'])
-    notcopied = [s for s in slots if s not in ('prev_other', 'matcher') and getattr(a, s) is not getattr(b, s)
-                 and not (s in ('stop', 'length') and getattr(a, s) == getattr(b, s))] if r else []
-    print("update returned", r, "expected", should, "fields not copied:", notcopied)
-    return 1 if (bool(r) != bool(should) or notcopied) else 0
+    bad = judge_update(d)
+    print("update:", bad or "consistent")
+    return 1 if bad else 0
 
 
 def run_trans(inst):
@@ -398,7 +449,7 @@ def main(tier):
                              mb.BaseMatcher._match_non_emitting_states_end, mb.BaseMatcher._build_matching_path)
     budget = 60 if tier == 'quick' else 900
     core_s = 16 * (120 if tier == 'quick' else 900)
-    kres = run_instances(run_instance, [('update', c) for c in ('BaseMatching', 'SimpleMatching', 'DistanceMatching')] + trans_instances(tier) + next_instances(tier))
+    kres = run_instances(run_instance, [('update', c) for c in ('BaseMatching', 'SimpleMatching', 'DistanceMatching')] + [('update', c, 'numeric') for c in ('BaseMatching', 'DistanceMatching')] + trans_instances(tier) + next_instances(tier))
     res = gabs.run_all(rep, run_instance, b_instances(tier), budget, core_s)
     rep.bounds = dict(update="two entries of the same key, symbolic scores and stop flags, every slot of the class",
                       runs="abstract geometry; graphs " + ("line2, oneway3, tri, oneway4" if tier == 'quick' else "all digraphs <=3 nodes/<=4 edges + fork, oneway4, path4") +
